@@ -7,18 +7,24 @@ REPO="${VERIF_REPO_DIR:?set VERIF_REPO_DIR to a private copy of the repository}"
 [ "$REPO" = "/repo" ] && { echo "refusing to patch /repo"; exit 2; }
 export VERIF_REPO_DIR="$REPO"
 OUT="${MATRIX_OUT:-/verif/seeded}"
-mkdir -p /tmp/verif_mx_out; cp "$HERE/known_findings.json" /tmp/verif_mx_out/
+# optional split over several snapshots running side by side: LANE=k LANES=n takes every n-th seed
+LANE="${LANE:-0}"; LANES="${LANES:-1}"
+MXOUT=/tmp/verif_mx_out_$LANE
+MATRIX="$OUT/MATRIX.part$LANE.txt"; [ "$LANES" = "1" ] && MATRIX="$OUT/MATRIX.txt"
+mkdir -p $MXOUT; cp "$HERE/known_findings.json" $MXOUT/
 sed 's|^export VERIF_DIR="\$DIR"|export VERIF_DIR="${VERIF_DIR:-$DIR}"|' "$HERE/check" > "$HERE/check_noenv"; chmod +x "$HERE/check_noenv"
-: > "$OUT/MATRIX.txt"
+idx=0
+: > "$MATRIX"
 for d in "$HERE"/seeded/*/; do
   n=$(basename "$d")
+  idx=$((idx+1)); [ $((idx % LANES)) -eq "$LANE" ] || continue
   [ -f "$d/patch.diff" ] || continue
-  ( cd "$REPO" && git checkout -q -- . 2>/dev/null; git apply "$d/patch.diff" ) || { echo "$n: patch does not apply" >> "$OUT/MATRIX.txt"; continue; }
+  ( cd "$REPO" && git checkout -q -- . 2>/dev/null; git apply "$d/patch.diff" ) || { echo "$n: patch does not apply" >> "$MATRIX"; continue; }
   mkdir -p "$OUT/$n"
   : > "$OUT/$n/detection.txt"
   caught=""
   for id in C01 C02 C03 C04 C05 C06 C07 C08 C09 C10 C11 C12 C13 C14 C15 C16 C17 C18 C19 C20; do
-     o=$(VERIF_DIR=/tmp/verif_mx_out "$HERE/check_noenv" $id 2>&1); rc=$?
+     o=$(VERIF_DIR=$MXOUT "$HERE/check_noenv" $id 2>&1); rc=$?
      v=$(echo "$o" | grep -c "^VIOLATION")
      r=$(echo "$o" | grep -m1 "reason:" | cut -c1-240)
      echo "$id rc=$rc violations=$v $r" >> "$OUT/$n/detection.txt"
@@ -26,5 +32,6 @@ for d in "$HERE"/seeded/*/; do
      [ $rc -eq 2 ] && caught="$caught $id(exit2)"
   done
   ( cd "$REPO" && git checkout -q -- . )
-  echo "$n caught_by:$caught" | tee -a "$OUT/MATRIX.txt"
+  echo "$n caught_by:$caught" | tee -a "$MATRIX"
 done
+rm -rf $MXOUT
